@@ -272,7 +272,7 @@ def candidates(schema, att, a, v, loc, rng):
                     out.append(("%s%+g" % (k + ("-with-exmin" if k == "exmax" and "exmin" in ev else ""), x - ev[k]), x))
         if ev.get("enum"):
             out.append(("enum-outsider", max(ev["enum"]) + 1))
-            out.append(("enum-member", ev["enum"][-1]))
+            out += [("enum-member-%d" % i, x) for i, x in enumerate(ev["enum"])]
         if isint:
             lo, hi = e2e.INT_RANGES[p]
             out = [(l, x) for l, x in out if lo <= x <= hi]
@@ -301,7 +301,7 @@ def candidates(schema, att, a, v, loc, rng):
                         continue
                     out.append(("pattern", s))
             if ev.get("enum"):
-                out += [("enum-outsider", "zzz"), ("enum-member", ev["enum"][-1])]
+                out += [("enum-outsider", "zzz")] + [("enum-member-%d" % i, x) for i, x in enumerate(ev["enum"])]
     elif p == "Bytes":
         for k in ("minlen", "maxlen"):
             if k in ev:
@@ -761,6 +761,10 @@ def run(c):
     c.cov["rule"] += (" Before them %d designs of the systematic transport table (every primitive kind in one location, required / optional / "
                       "defaulted in rotation, odd dozens with the validation kinds in rotation)." % nm)
     builds = e2e.build_many(c.seed, range(nm), lambda i: ["-matrix-design"], work)
+    na = 10 if c.tier == "quick" else 40
+    c.cov["rule"] += (" Then %d designs around primitive alias types with validations; the odd ones give the attributes an Enum of their own "
+                      "whose members partly violate the alias's rules." % na)
+    builds += e2e.build_many(c.seed, range(na), lambda i: ["-alias-design"], work)
     builds += e2e.build_many(c.seed, range(n), flags_for, work)
     lines_total = 0
     for b in builds:
